@@ -49,6 +49,16 @@ def footprint(sk, *xs):
         n = len(fiber.coords) if fmts[level] == "C" else S
         return bits[(level, "fhbits")] + (bits[(level, "cbits")] + bits[(level, "pbits")]) * n
 
+    # the per-rank accessors report the specification with missing fields at their defaults (0 bits, "C", "contiguous")
+    for i, r in enumerate(ids):
+        if (fm.getCBits(r), fm.getPBits(r), fm.getFHBits(r), fm.getRHBits(r)) != (bits[(i, "cbits")], bits[(i, "pbits")], bits[(i, "fhbits")], bits[(i, "rhbits")]):
+            return fail("per-rank bit widths of rank %s" % r)
+        if fm.getFormat(r) != fmts[i]:
+            return fail("getFormat(%s) is %r, specified (or defaulted) %r" % (r, fm.getFormat(r), fmts[i]))
+        if fm.getLayout(r) != (("contiguous" if i % 2 == 0 else "interleaved") if missing == "none" else "contiguous"):
+            return fail("getLayout(%s)" % r)
+        if fm.getElem(r, "elem") != bits[(i, "cbits")] + bits[(i, "pbits")] or fm.getElem(r, "coord") != bits[(i, "cbits")] or fm.getElem(r, "payload") != bits[(i, "pbits")]:
+            return fail("getElem(%s)" % r)
     levels = fibers_at_depth(t.getRoot())
     want_ranks = []
     for i in range(d):
